@@ -2339,7 +2339,25 @@ Lemma rdn_spec : forall g w v m a l1' cmb dmb l2,
   exists w2,
     ff (remove_disk_node g m d) w = (w2, Done (rm_mem g m d child cd' ppd, Ok))
     /\ recover g w2 = Some vpost
-    /\ Forall (Good g v vpost) (states (remove_disk_node g m d) w).
+    /\ Forall (Good g v vpost) (states (remove_disk_node g m d) w)
+    (* the two directories in between: after the child's metadata was rewritten, after the parent's *)
+    /\ (exists vmid, recover g (enc_fs w (Meta child) (IDisk cd')) = Some vmid /\ veq vmid vpost)
+    /\ w2 = match ppd with
+            | Some (p, pd') => enc_fs (enc_fs w (Meta child) (IDisk cd')) (Meta p) (IDisk pd')
+            | None => enc_fs w (Meta child) (IDisk cd')
+            end
+    (* the shape of the program: the child's metadata, then the parent's; a failure of either is fatal *)
+    /\ (exists K1, remove_disk_node g m d = bind (encode_to_file g (IDisk cd') (Meta child)) K1
+          /\ K1 Failed = Abort Fatal
+          /\ match ppd with
+             | None => exists a, K1 Ok = Ret a
+             | Some (p, pd') =>
+                 exists (R : res -> prog (mem * res)) (K2 : mem * res -> prog (mem * res)),
+                   K1 Ok = bind (bind (encode_to_file g (IDisk pd') (Meta p)) R) K2
+                   /\ (forall e, exists m3, R e = Ret (m3, e))
+                   /\ (forall m3 : mem, K2 (m3, Failed) = Abort Fatal)
+                   /\ (forall m3 : mem, exists a, K2 (m3, Ok) = Ret a)
+             end).
 Proof.
   intros g w v m a l1' cmb dmb l2 Hctx Hchain l1 d child cd' ppd vpost.
   destruct (ctx_shape g w v m Hctx) as [n [id0 [d0 [tl0 [c [Hchain0 [Hvh [Hmh [Hsnaps [Hnd [Hndi [Hvol [Hcnt [Hlink [Hlen [Hd0 Hpar]]]]]]]]]]]]]]]].
@@ -2415,7 +2433,8 @@ Proof.
     cbn [rm_ppd] in ppd. subst ppd.
     assert (Hpostmid : rm_post l1 cmb dmb [] = mid) by reflexivity.
     unfold rdn_parent_rev. rewrite Hpd. cbn [bind ff is_ok res_eqb negb].
-    exists w1. split; [| split].
+    exists w1. split; [| split; [| split; [| split; [exists (mkview (cv_info v) mid); split; [exact Hrec1 | subst vpost; rewrite Hpostmid; apply veq_refl] |
+      split; [reflexivity | eexists; split; [reflexivity | split; [reflexivity | eexists; reflexivity]]]]]]].
     + rewrite (Hfin m2 eq_refl). reflexivity.
     + subst vpost. rewrite Hpostmid. exact Hrec1.
     + subst vpost. rewrite Hpostmid. apply Forall_states_bind.
@@ -2466,7 +2485,10 @@ Proof.
           pose proof (nodup_app_r _ _ Hndn) as Hr. inversion Hr as [| ? ? _ Hr1]; subst. inversion Hr1 as [| ? ? _ Hr2]; subst.
           cbn [names_of_chain map] in Hr2. inversion Hr2; subst. contradiction.
       - repeat split. }
-    exists w2. split; [| split].
+    exists w2. split; [| split; [| split; [| split; [exists (mkview (cv_info v) mid); split; [exact Hrec1 | exact Hveq] |
+      split; [rewrite Hppd; reflexivity |
+        eexists; split; [reflexivity | split; [reflexivity | rewrite Hppd; eexists; eexists;
+          split; [reflexivity | split; [intros e0; eexists; reflexivity | split; [intros; reflexivity | intros; eexists; reflexivity]]]]]]]]]].
     + rewrite ff_bind, ff_bind, ff_encode by (cbn; auto; right; eexists; reflexivity). fold w2. cbn [ff is_ok res_eqb negb].
       rewrite (Hfin m3 eq_refl). rewrite Hppd. reflexivity.
     + exact Hrec2.
@@ -2539,7 +2561,7 @@ Proof.
       inversion Hchain0 as [[Hc0 Ht0]]. rewrite Hc0 in Hp0. cbn [mb_disk] in Hp0.
       destruct Hinfo as [_ [_ [_ [Hip _]]]]. rewrite Hip, Hpar, Hp0, Hdn, odname_eqb_refl in Ep. discriminate. }
     subst d.
-    destruct (rdn_spec g w v m a l1' cmb dmb l2 Hctx Hsplit) as [w2 [Hff2 [Hrec2 Hst2]]].
+    destruct (rdn_spec g w v m a l1' cmb dmb l2 Hctx Hsplit) as [w2 [Hff2 [Hrec2 [Hst2 _]]]].
     set (vpost := mkview (cv_info v) (rm_post (a :: l1') cmb dmb l2)) in *.
     set (m' := rm_mem g m (mb_name dmb) (mb_name cmb) (rm_cd' (mb_disk dmb) (mb_disk cmb)) (rm_ppd (mb_disk dmb) l2)) in *.
     pose proof Hnd as Hnd2. rewrite Hsplit in Hnd2.
@@ -2944,7 +2966,9 @@ Lemma construct_spec : forall g w v size now,
        /\ ctx g wF vF mF
        /\ m_mode mF = INIT /\ m_info mF = cv_info v
        /\ Forall (Good g v vF) (states (construct g size now) w)
-       /\ veq v vF.
+       /\ veq v vF
+       (* the path taken: the metadata is found *)
+       /\ (exists w2 m2, ff (read_metadata g (mkmem (empty_info size) no_disks no_children [] INIT c)) w = (w2, Done (m2, true, Ok))).
 Proof.
   intros g w v size now Hrec Hwf Hfr Hcfg.
   destruct (recover_elim g w v Hrec) as [Hvol [h [c [Hhd [Hw Hc]]]]].
@@ -3084,7 +3108,7 @@ Proof.
       intros y Ey Hy. inversion Ey; subst y. subst l. rewrite Hchain in Hy. cbn [List.tl] in Hy. exact (snap_not_head tl0 k Hsnaps Hy). }
   split; [subst mF m3; cbn [m_mode set_info set_active]; rewrite K3; reflexivity |].
   split; [reflexivity |].
-  split; [| exact HveqF].
+  split; [| split; [exact HveqF | exists w2, m2; exact Hffrm]].
   (* every directory on the way recovers to a view equivalent to v *)
   assert (HgoodF : forall x' l', files x' Vol = Some (IVol i) -> files x' Counter = Some (ICounter c) ->
              linked (files x') l' -> Forall2 member_sim l l' -> Good g v vF x').
@@ -3266,7 +3290,7 @@ Proof.
     pose proof (ff_fresh _ (rm_disk (Some (Head n))) w2 Hfr2) as H. rewrite Hff3 in H. exact H. }
   (* Reload *)
   destruct (construct_spec g w3 v2 (i_size (m_info m)) 0 Hrec3 Hwf2 Hfr3 Hcfg) as [wF [mF [c' [HcF HF]]]].
-  cbn zeta in HF. destruct HF as [HffF [HctxF [HmodeF [HinfoF [HstF HveqF]]]]].
+  cbn zeta in HF. destruct HF as [HffF [HctxF [HmodeF [HinfoF [HstF [HveqF _]]]]]].
   set (iF := set_dirty_rebuilding (cv_info v2) true (i_rebuilding (cv_info v2))) in *.
   set (vF := mkview iF (norm_chain c' (cv_chain v2))) in *.
   set (mR := set_info (set_mode mF (m_mode m)) (set_dirty_rebuilding (m_info mF) (i_dirty (m_info m)) (i_rebuilding (m_info mF)))).
@@ -3634,9 +3658,29 @@ Definition ok_op (g : cfg) (s : st) (o : op) : Prop :=
       fix_rev g = true
       \/ (In d (names_of_chain (cv_chain v)) /\ Some d <> i_head (cv_info v))
       \/ files (s_fs s) (Img d) = None
+  | OReplace t src, Some m, Some v =>          (* ReplaceDisk: only its refusals are covered here *)
+      m_mode m <> RW \/ Some t = i_head (m_info m) \/ files (s_fs s) (Img src) = None
   | OCrashIn _ _, _, _ => False               (* treated separately *)
   | _, _, _ => True
   end.
+
+(** ReplaceDisk refused: wrong mode, the target is the head, or the source file does not exist *)
+Lemma replace_refused_spec : forall g w v m t src,
+  ctx g w v m ->
+  (m_mode m <> RW \/ Some t = i_head (m_info m) \/ files w (Img src) = None) ->
+  ospec g w v m (replace_disk g m t src).
+Proof.
+  intros g w v m t src Hctx H. unfold replace_disk.
+  destruct (negb (mode_eqb (m_mode m) RW)) eqn:Em; [eapply ospec_refuse; [exact Hctx | | reflexivity]; discriminate |].
+  destruct (odname_eqb (Some t) (i_head (m_info m))) eqn:Eh; [eapply ospec_refuse; [exact Hctx | | reflexivity]; discriminate |].
+  destruct H as [H | [H | H]].
+  - exfalso. apply H. destruct (m_mode m); cbn in Em; congruence.
+  - exfalso. rewrite H, odname_eqb_refl in Eh. discriminate.
+  - pose proof (cx_rec _ _ _ _ Hctx) as Hrec.
+    exists w, m, Refused, v. unfold hardlink_disk. cbn [bind ff apply_call states]. rewrite H. cbn [is_err ff states bind is_ok res_eqb negb fst snd].
+    split; [reflexivity |]. split; [exact Hctx |]. split; [| auto].
+    repeat constructor; apply Good_pre; exact Hrec.
+Qed.
 
 Lemma InvS_drop_mem : forall g w om, InvS g (mkst w om) -> InvS g (mkst w None).
 Proof. intros g w om [v [H1 [H2 [H3 _]]]]. exists v. repeat split; assumption. Qed.
@@ -3689,6 +3733,7 @@ Proof.
     + apply sspec_lift. apply op_spec_ospec; [exact Hctx |]. apply set_checkpoint_spec; assumption.
     + destruct b; destruct (mstate m); try (apply sspec_ret; [exact Hinv | exact Hrec | auto]);
         (apply sspec_lift; apply op_spec_ospec; [exact Hctx |]; apply set_rebuilding_spec; assumption).
+    + apply sspec_lift. apply replace_refused_spec; assumption.
     + contradiction.
   - (* no replica open *)
     destruct o; cbn [op_prog]; try (apply sspec_ret; [exact Hinv | exact Hrec | auto]).
@@ -3700,7 +3745,7 @@ Proof.
     + (* open *)
       unfold open_volume. destruct (recover_elim g w v Hrec) as [Hvol _].
       destruct (construct_spec g w v (i_size (cv_info v)) 0 Hrec Hwf Hfr Hcfg) as [wF [mF [c [Hc HF]]]].
-      cbn zeta in HF. destruct HF as [HffF [HctxF [HmodeF [HinfoF [HstF HveqF]]]]].
+      cbn zeta in HF. destruct HF as [HffF [HctxF [HmodeF [HinfoF [HstF [HveqF _]]]]]].
       eexists wF, (Some mF), Ok, O, _. split; [cbn [ff apply_call]; rewrite Hvol; rewrite ff_bind, HffF; reflexivity |].
       split; [eapply ctx_InvS; exact HctxF |].
       split; [apply HctxF |]. split; [| intros H; congruence].
@@ -3915,7 +3960,7 @@ Proof.
     - exists w, v. split; [reflexivity |]. repeat split; try assumption. apply veq_refl. }
   destruct H1 as [w1 [v1 [Es1 [Hr1 [Hwf1 [Hfr1 Hveq1]]]]]].
   destruct (construct_spec g w1 v1 (i_size (cv_info v1)) 0 Hr1 Hwf1 Hfr1 Hcfg) as [wF [mF [c [Hc HF]]]].
-  cbn zeta in HF. destruct HF as [HffF [HctxF [HmodeF [HinfoF [HstF HveqF]]]]].
+  cbn zeta in HF. destruct HF as [HffF [HctxF [HmodeF [HinfoF [HstF [HveqF _]]]]]].
   destruct (recover_elim g w1 v1 Hr1) as [Hvol1 _].
   assert (Hstep2 : step g s1 OOpen = (mkst wF (Some mF), ResOk, O)).
   { rewrite Es1. rewrite (step_ff g (mkst w1 None) OOpen wF (Some mF) Ok O); [reflexivity | intros; discriminate |].
@@ -4106,6 +4151,19 @@ Proof.
   eapply durP_bind; [apply dp_rm_some |]. intros e2 pd2 [_ H2]. cbn. unfold Qop. intros _. exact H2.
 Qed.
 
+Lemma dp_replace_disk : forall g m t src pd, durP Qop pd (replace_disk g m t src).
+Proof.
+  intros g m t src pd. unfold replace_disk.
+  destruct (negb (mode_eqb (m_mode m) RW)); [cbn; unfold Qop; cbn; discriminate |].
+  destruct (odname_eqb (Some t) _); [cbn; unfold Qop; cbn; discriminate |].
+  eapply durP_bind; [apply durP_true |]. intros e0 pd0 _.
+  destruct (negb (is_ok e0)) eqn:E0; [cbn; unfold Qop; cbn; intro H; exfalso; exact (is_ok_false e0 E0 H) |].
+  eapply durP_bind; [apply durP_true |]. intros [m1 e1] pd1 _.
+  destruct (negb (is_ok e1)) eqn:E1; [cbn; unfold Qop; cbn; intro H; exfalso; exact (is_ok_false e1 E1 H) |].
+  eapply durP_bind; [apply dp_rm_some |]. intros e2 pd2 [_ H2].
+  destruct (negb (is_ok e2)); [exact I |]. cbn. unfold Qop. intros _. exact H2.
+Qed.
+
 Lemma dp_construct : forall g size now pd, durP (fun a pd' => snd a = Ok -> pd' = false) pd (construct g size now).
 Proof.
   intros g size now pd. unfold construct. cbn [durP]. intros rm _.
@@ -4204,6 +4262,7 @@ Proof.
       (apply Hlift; unfold set_rebuilding; eapply durP_bind; [apply dp_encode |]; intros e pd' H;
        destruct (is_ok e) eqn:E; [| cbn; unfold Qop; cbn; discriminate];
        assert (e = Ok) by (destruct e; try discriminate; reflexivity); subst e; cbn; unfold Qop; intros _; apply H; reflexivity).
+  - apply Hlift. apply dp_replace_disk.
   - (* open *)
     unfold open_volume. cbn [durP]. intros rv _. 
     assert (Hc : cpend false (CReadFile Vol) = false) by reflexivity. rewrite Hc.
@@ -4393,10 +4452,15 @@ Qed.
 
 (** ** with the three argument repairs in, every argument value is fine *)
 
+(** ReplaceDisk is the exception: only its refusals are inside [ok_op] (its successful runs are
+    exercised by the correspondence runs of the check, not by the invariant theorem) *)
+Definition norepl (o : op) : Prop :=
+  match o with OReplace _ _ => False | OCrashIn _ (OReplace _ _) => False | _ => True end.
+
 Lemma ok_op_repaired : forall g s o,
-  fix_dup g = true -> fix_rev g = true -> fix_children g = true -> InvS g s -> plain o -> ok_op g s o.
+  fix_dup g = true -> fix_rev g = true -> fix_children g = true -> InvS g s -> plain o -> norepl o -> ok_op g s o.
 Proof.
-  intros g [w om] o H1 H2 H3 [v [Hrec [Hwf [Hfr Hmem]]]] Hpl. unfold ok_op. cbn [s_fs s_mem] in *. rewrite Hrec.
+  intros g [w om] o H1 H2 H3 [v [Hrec [Hwf [Hfr Hmem]]]] Hpl Hnr. unfold ok_op. cbn [s_fs s_mem] in *. rewrite Hrec.
   destruct o; try exact I; try contradiction; destruct om as [m |]; try exact I.
   - destruct Hmem as [[_ [_ [_ [Hfix _]]]] _]. split; [left; exact H1 | intros Hn; apply Hfix; assumption].
   - left. exact H2.
@@ -4406,13 +4470,13 @@ Definition shape_ok (o : op) : Prop := match o with OCrashIn _ o' => plain o' | 
 
 Lemma ok_hist_repaired : forall g os s,
   cfg_ok g -> fix_dup g = true -> fix_rev g = true -> fix_children g = true ->
-  InvS g s -> Forall shape_ok os -> ok_hist g s os.
+  InvS g s -> Forall shape_ok os -> Forall norepl os -> ok_hist g s os.
 Proof.
-  intros g os. induction os as [| o t IH]; intros s Hcfg H1 H2 H3 Hinv Hsh; [exact I |].
-  inversion Hsh as [| ? ? Ho Ht]; subst. cbn [ok_hist].
+  intros g os. induction os as [| o t IH]; intros s Hcfg H1 H2 H3 Hinv Hsh Hnr; [exact I |].
+  inversion Hsh as [| ? ? Ho Ht]; subst. inversion Hnr as [| ? ? Hno Hnt]; subst. cbn [ok_hist].
   assert (Hstep : ok_step g s o).
   { destruct o; cbn [ok_step shape_ok] in *; try (apply ok_op_repaired; assumption || exact I).
-    split; [exact Ho | apply ok_op_repaired; assumption]. }
+    split; [exact Ho | apply ok_op_repaired; try assumption]. destruct o; try exact I; contradiction. }
   split; [exact Hstep |]. apply IH; try assumption. apply step_inv; assumption.
 Qed.
 
@@ -4458,7 +4522,7 @@ Proof.
   assert (Hfrk : ids_fresh w').
   { pose proof (states_fresh _ (op_prog g (s_mem s) o) (s_fs s) Hfr0) as Hsf. eapply Forall_forall in Hsf; [exact Hsf | exact Hin]. }
   destruct (construct_spec g w' vk (i_size (cv_info vk)) 0 Hk1 Hwfk Hfrk Hcfg) as [wF [mF [c [Hc HF]]]].
-  cbn zeta in HF. destruct HF as [HffF [HctxF [HmodeF [HinfoF [HstF HveqF]]]]].
+  cbn zeta in HF. destruct HF as [HffF [HctxF [HmodeF [HinfoF [HstF [HveqF _]]]]]].
   destruct (recover_elim g w' vk Hk1) as [Hvolk _].
   assert (Hstep2 : step g (mkst w' None) OOpen = (mkst wF (Some mF), ResOk, O)).
   { rewrite (step_ff g (mkst w' None) OOpen wF (Some mF) Ok O); [reflexivity | intros; discriminate |].
